@@ -144,7 +144,7 @@ def run_check(prop, tier, verif_seed, nruns, jobs, wall_cap, evidence_path=None,
     findings = load_findings()
     groups = {}
     for rec in sorted(agg['viol'], key=lambda r: r['i']):
-        key = (rec['violation']['oracle'], rec['violation']['signature'])
+        key = (rec['violation']['oracle'], rec['violation']['signature'], str(rec['violation'].get('op')))
         groups.setdefault(key, []).append(rec)
     out_lines = []
     n_viol = 0
